@@ -423,3 +423,10 @@ func M_cond_Wait(c *sync.Cond) {
 	Yield() // the goroutine is parked; the harness' OnYield hook decides what happens meanwhile
 	c.L.Lock()
 }
+
+// M_wait_PollUntilContextTimeout: the condition is evaluated once (polling
+// loops are bounded to a single probe; the callers ignore the outcome).
+func M_wait_PollUntilContextTimeout(ctx context.Context, interval, timeout time.Duration, immediate bool, condition func(context.Context) (bool, error)) error {
+	_, err := condition(ctx)
+	return err
+}
